@@ -64,6 +64,11 @@ func jobs(tier string) []driver.Job {
 					s := scen{d: d, root: root, prepop: prep, conc: conc, api: api}
 					main := pi == 0 && conc == 2 && api == "graph"
 					switch {
+					case main && th && len(d.Nodes) > 6:
+						// the largest shapes: three deviations do not fit the thorough budget, two around all three base schedulers do
+						for sh := 0; sh < 8; sh++ {
+							out = append(out, mkJob(s, 2, 0, all3, sh, 8))
+						}
 					case main && th:
 						for sh := 0; sh < 16; sh++ {
 							out = append(out, mkJob(s, 3, 0, []int{0}, sh, 16))
